@@ -517,6 +517,10 @@ def _resp_entries(path, r, depth):
             ty = ENGINE.collection_type(path.entry, c0)
             if ty is not None and not any(m in ty for m in ("CosmosMsg", "SubMsg", "BankMsg", "WasmMsg")):
                 return base             # a loop over something that is not a list of messages (coins, votes, members) adds none
+            if ty is None and not (c0[0] in ("field", "vfield") and str(c0[-1]).startswith(("msg", "message"))):
+                # an iterator of unknown element type that took no element added nothing either way; only a collection that is
+                # recognisably the messages to relay keeps its name, so that zero- and one-iteration paths report the same thing
+                return base
         return base + [("submsgs" if subs else "msgs", coll)]
     return None
 
